@@ -8,7 +8,7 @@ from vlib import ns
 
 ns.install()
 
-ENTRIES = ['future', 'shutdown', 'exit-exc', 'exit-kbd', 'kbd-result']
+ENTRIES = ['future', 'shutdown', 'exit-exc', 'exit-kbd', 'kbd-result', 'kbd-shutdown']
 MSG = 'stop it'
 
 
@@ -81,6 +81,14 @@ def cancel_action(c, entry):
     elif entry == 'exit-kbd':
         e = KeyboardInterrupt()
         m.__exit__(type(e), e, None)
+    elif entry == 'kbd-shutdown':
+        # Ctrl-C arrives while shutdown() is waiting for the transfers
+        ns.S.interrupt_pending = True
+        try:
+            m.shutdown()
+        except KeyboardInterrupt:
+            pass
+        ns.S.interrupt_pending = False
     elif entry == 'kbd-result':
         ns.S.interrupt_pending = True
         try:
@@ -99,7 +107,7 @@ def expected_error(entry):
         return H.CancelledError, MSG
     if entry == 'exit-exc':
         return H.FatalError, MSG
-    if entry == 'exit-kbd':
+    if entry in ('exit-kbd', 'kbd-shutdown'):
         return H.CancelledError, 'KeyboardInterrupt()'
     return H.CancelledError, ''
 
@@ -108,6 +116,7 @@ def go(c, S, entry=None, top_at=-1):
     """run to quiescence: top-level loop with the cancel injected before the top_at-th task start (blocking entry
     points are only usable here), then shutdown.  Returns None or a 'c04:' / '~' verdict."""
     c.cancel_error = None
+    c.barrier_ok = True
     c.requests_before_cancel = None
     c.cancelled = False
     try:
@@ -123,6 +132,9 @@ def go(c, S, entry=None, top_at=-1):
                     cancel_action(c, entry)
                 except Exception as e:  # noqa
                     c.cancel_error = e
+                if entry in ('shutdown', 'exit-exc', 'exit-kbd', 'kbd-shutdown') and c.cancel_error is None:
+                    # shutdown / with-exit is a barrier, however it ends
+                    c.barrier_ok = S.quiescent() and c.future.done() and all(e.closed for e in S.execs)
             r = S.runnable()
             if not r:
                 break
